@@ -251,7 +251,7 @@ def cfg_for(pid: str, profile: str) -> dict:
         c.update(probe_each=True, pause_between=True, lookup=True, spawn_via_loop=1, top_scope=True, max_blocks=12)
     elif pid == "C06":
         w.update(scope=3, updated=1, spawn=5, pause=2, raise_=1, try_=1)
-        c.update(join=True, spawn_fail=1, spawn_gate=(2, 2, 2), top_scope=True, p_async=4)
+        c.update(join=True, spawn_fail=1, spawn_gate=(2, 2, 2), top_scope="mostly", p_async=4)
         if profile in ("sweep", "cancel"):
             c.update(cancel_mode="sweep" if profile == "sweep" else "random")
     elif pid == "C07":
@@ -265,8 +265,12 @@ def cfg_for(pid: str, profile: str) -> dict:
                  lookup=True, cancel_mode="sweep" if profile == "sweep" else None)
     elif pid == "C09":
         w.update(scope=6, spawn=3, pause=3, updated=1)
-        c.update(completion=2, completion_rules=True, spawn_via_loop=2, late_children=1, spawn_gate=(2, 2, 0),
+        c.update(completion=3, completion_rules=True, spawn_via_loop=2, late_children=1, spawn_gate=(2, 2, 0),
                  max_blocks=6, top_scope=True)
+        if profile == "faults":
+            # every exit path: body raise, failing children, failing disposables, one external cancel
+            w.update(raise_=2, try_=2)
+            c.update(spawn_fail=1, disposables=2, disp_faults=1, cancel_mode="random", max_blocks=8)
     elif pid == "C10":
         w.update(scope=4, spawn=2, record=6, pause=2, updated=1)
         c.update(completion=3, metrics_rules=True, spawn_via_loop=1, spawn_gate=(2, 1, 0), max_blocks=6)
@@ -406,7 +410,7 @@ class Gen:
     def program(self):
         c = self.cfg
         ops = self.block(0)
-        if c["top_scope"]:
+        if c["top_scope"] and not (c["top_scope"] == "mostly" and self.s.chance(1, 4, "no-top-scope")):
             self.blocks += 1
             spec = {"async": True, "name": 1, "states": self.states(), "disp": None, "given": 0, "logger": None,
                     "trace": None, "completion": (1 + self.s.draw(2, "completion")) if c["completion"] else 0}
@@ -605,6 +609,17 @@ class Engine:
         except AttributeError:
             owner = None
         return ("group", self.ident(owner) if owner is not None else 0)
+
+    @staticmethod
+    def owner_of(task):
+        try:
+            for cb, _c in (task._callbacks or ()):
+                o = getattr(cb, "__self__", None)
+                if isinstance(o, asyncio.TaskGroup):
+                    return o
+        except AttributeError:
+            pass
+        return None
 
     def observe(self, actor):
         obs = {"state": self.probe(actor, 0, check=False)}
@@ -1028,8 +1043,11 @@ class Engine:
             else:
                 # outside any scope: a detached, running task
                 if self.cfg["join"]:
+                    sim.stats["spawn_outside_any_async_scope"] += 1
                     if child.task.done():
                         sim.fail("detached-spawn", "ctx.spawn outside any scope returned a finished task")
+                    if self.owner_of(child.task) is not None and not actor.stack:
+                        sim.fail("detached-spawn", "ctx.spawn outside any scope returned a task owned by a task group")
         else:
             child.task = sim.loop.create_task(child_main(child.aid))
         child.task.add_done_callback(self._retrieve)
@@ -1124,6 +1142,11 @@ class Engine:
         sim.event("log", actor.aid, scope.uid if scope else 0, level, fmt)
         got = [r for r in self.cap.records[n0:] if marker in r[2]]
         self.judge_log(actor, scope, got, lvl, user, marker, bool(args))
+        if exc is not None and got:
+            ei = got[0][4]
+            if not ei or ei[1] is not exc:
+                sim.fail("log-exception", f"log call was given exception {exc!r} but the record carries exc_info={ei!r}",
+                         scoped=int(scope is not None))
 
     def effective_logger(self, scope):
         f = scope
@@ -1382,6 +1405,10 @@ class Engine:
                 if a.task is not None and not a.task.done():
                     sim.fail_post("hang", f"actor {a.aid} still pending at quiescence")
                     return
+                if a.task is not None and a.via == 0 and a.spawned_in is None and not a.started and a.cancel_landed is None:
+                    sim.fail_post("detached-spawn", f"actor {a.aid} was spawned outside any scope but its task never ran "
+                                  f"(cancelled={a.task.cancelled()})")
+                    return
         if cfg["cancel_rules"]:
             self.finish_cancel()
         if cfg["disp_rules"] and sim.violation is None:
@@ -1482,7 +1509,8 @@ class Engine:
                 return
             desc = self.descendants(f, [])
             if f.completion_seq is not None:
-                late = [d.uid for d in [f, *desc] if d.body_end_seq is None or d.body_end_seq > f.completion_seq]
+                mine = [f] if f.entered else []
+                late = [d.uid for d in [*mine, *desc] if d.body_end_seq is None or d.body_end_seq > f.completion_seq]
                 late = [u for u in late if any(d.uid == u and d.registered_seq < f.completion_seq for d in [f, *desc])]
                 if late:
                     sim.fail_post("completion-early", f"completion of scope #{f.uid} fired (seq {f.completion_seq}) before nested "
@@ -1668,10 +1696,12 @@ PROPS = {
                "scopes with 0..4 disposable doubles (none/one/several states; ok/raise/suspend in enter and exit), Disposables or plain "
                "iterable, body return/raise/cancel, all completion orders; non-trivial = a disposable fault fired or two blocks",
                sweeps=("sweep",)),
-    "C09": _mk("C09", "exploration", {"quick": [("plain", 150000)], "thorough": [("plain", 3000000)]},
+    "C09": _mk("C09", "exploration", {"quick": [("plain", 120000), ("faults", 60000)],
+                                      "thorough": [("plain", 2400000), ("faults", 1200000)]},
                "scope trees (<=6 nodes, sync/async callbacks on every node) whose children run in the parent's task, in ctx.spawn tasks "
                "or in plain create_task tasks that may outlive the parent or create scopes after the parent completed; every "
-               "linearisation of enter/exit via pauses and gates; non-trivial = at least two scopes"),
+               "linearisation of enter/exit via pauses and gates; profile 'faults' adds body raise, failing children, failing "
+               "disposables and one external cancel so that every exit path is covered; non-trivial = at least two scopes"),
     "C10": _mk("C10", "exploration", {"quick": [("plain", 150000)], "thorough": [("plain", 3000000)]},
                "scope trees with record ops of two metric types (merge replace/sum/concat(non-commutative)/raising) at any position, in "
                "concurrently running actors, outside scopes and after completion; reference left fold per scope and depth-first "
